@@ -103,8 +103,10 @@ def r2_roundtrip(a, tier):
         'symbol and quoting agreement: for a stand-in node of every expression class, the text its _pretty method produces '
         '(interpreted) is read by the checker\'s reader of the TatSu grammar language back to the same PEG expression: every '
         'operator symbol the printers emit is one the grammar language defines, tokens/patterns/constants are quoted so that they '
-        'survive, names and separators are kept',
-        floor=45,
+        'survive, names and separators are kept; every wrapper (name=, name+=, =, &, !, ->, join/gather separator, sequence element, [ ], '
+        '{ }, { }+, (?: ), join element) over every operand kind the language allows there (atoms and parenthesised groups of a rule '
+        'include, cut, void, token, sequence, choice, optional) reads back as the same expression',
+        floor=150,
     )
     b = B(a)
     PEG = 'tatsu.peg'
@@ -163,6 +165,40 @@ def r2_roundtrip(a, tier):
         ('Closure over a choice', b.box('Closure', Stub(Q['Choice'], options=[Stub(Q['Option'], exp=T('a')), Stub(Q['Option'], exp=T('b'))])),
          ('clo', ('choice', (('tok', 'a'), ('tok', 'b'))))),
     ]
+    # compositions: every wrapper over every operand the grammar language can put there (an atom or a parenthesised group
+    # where the language wants a term, anything inside brackets)
+    def G(x):
+        return b.box('Group', x)
+    atoms = [
+        ('token', lambda: T('a'), ('tok', 'a')), ('pattern', lambda: Stub(Q['Pattern'], pattern='x+'), ('pat', 'x+')),
+        ('call', lambda: C('r'), ('call', 'r')), ('constant', lambda: Stub(Q['Constant'], literal='k'), ('const', 'k')),
+        ('group of a rule include', lambda: G(Stub(Q['RuleInclude'], name='base', _exp=None)), ('include', 'base')),
+        ('group of a cut', lambda: G(Stub(Q['Cut'])), ('cut',)), ('group of void', lambda: G(Stub(Q['Void'])), ('void',)),
+        ('group of a token', lambda: G(T('a')), ('tok', 'a')),
+        ('group of a sequence', lambda: G(seq(T('a'), C('r'))), ('seq', (('tok', 'a'), ('call', 'r')))),
+        ('group of a choice', lambda: G(Stub(Q['Choice'], options=[Stub(Q['Option'], exp=T('a')), Stub(Q['Option'], exp=T('b'))])),
+         ('choice', (('tok', 'a'), ('tok', 'b')))),
+        ('group of an optional', lambda: G(b.box('Optional', T('a'))), ('opt', ('tok', 'a'))),
+    ]
+    term_wrappers = [
+        ('name=', lambda x: b.box('Named', x, name='n'), lambda i: ('named', 'n', i)),
+        ('name+=', lambda x: b.box('NamedList', x, name='n'), lambda i: ('namedlist', 'n', i)),
+        ('=', lambda x: b.box('Override', x), lambda i: ('over', i)),
+        ('&', lambda x: b.box('Lookahead', x), lambda i: ('la', i)),
+        ('!', lambda x: b.box('NegativeLookahead', x), lambda i: ('nla', i)),
+        ('->', lambda x: b.box('SkipTo', x), lambda i: ('skipto', i)),
+        ('separator of a join', lambda x: b.join('Join', T('e'), x), lambda i: ('join', i, ('tok', 'e'))),
+        ('separator of a gather', lambda x: b.join('Gather', T('e'), x), lambda i: ('gather', i, ('tok', 'e'))),
+        ('element of a sequence', lambda x: seq(T('p'), x, T('q')), lambda i: ('seq', (('tok', 'p'), i, ('tok', 'q')))),
+    ]
+    bracket_wrappers = [
+        ('[ ]', lambda x: b.box('Optional', x), lambda i: ('opt', i)), ('{ }', lambda x: b.box('Closure', x), lambda i: ('clo', i)),
+        ('{ }+', lambda x: b.box('PositiveClosure', x), lambda i: ('pclo', i)), ('(?: )', lambda x: b.box('SkipGroup', x), lambda i: ('skipgroup', i)),
+        ('element of a join', lambda x: b.join('Join', x, T(',')), lambda i: ('join', ('tok', ','), i)),
+    ]
+    for wname, wmk, wir in term_wrappers + bracket_wrappers:
+        for aname, amk, air in atoms:
+            cases.append((f'{wname} over {aname}', wmk(amk()), wir(air)))
     for what, node, want in cases:
         cls = node._cls
         try:
